@@ -174,7 +174,9 @@ EqModRep(a, b) ==
                  /\ \A j \in 1..Len(b.v) : \E i \in 1..Len(a.v) : EqModRep(a.v[i][1], b.v[j][1]) /\ EqModRep(a.v[i][2], b.v[j][2])
            [] OTHER -> EqV(a, b)
 
-\* nesting depth of a value (bounds the unfolding of references, SchemaAST!Unfold)
+\* nesting depth of a value (bounds the unfolding of references, SchemaAST!Unfold).  Depth is also a dimension of
+\* the C04 universe: SchemaMC generates well-formed values nested 16..64 levels for schemas that recurse through a
+\* list or a map, and the operations have to return within the per-case bound (work polynomial in the input size)
 Max2(a, b) == IF a > b THEN a ELSE b
 RECURSIVE MaxOver(_, _)
 MaxOver(f, n) == IF n = 0 THEN 0 ELSE Max2(f[n], MaxOver(f, n - 1))
